@@ -166,7 +166,38 @@ def check_C13(c):
     c.rep.assumptions = ["a no-op error of the calculator counts as success (the operation swallows it)"]
 
 
-CHECKS = {"C01": check_C01, "C02": check_C02, "C03": check_C03, "C04": check_C04, "C13": check_C13}
+LAYS = ("C", "T", "Tp", "Row", "Col", "Step", "Mat")
+
+
+def elem_consts(q, kinds, forms=("TT", "TS", "ST"), laya=LAYS, layb=LAYS, modes=("safe",), layd=("C",), mismatch=True, **kw):
+    k = dict(MinRank=0, MaxRank=3 if q else 4, MaxDim=3, MaxDimHi=2, HiRank=3 if q else 4,
+             Kinds={S(x) for x in kinds}, Forms={S(x) for x in forms}, LayA={S(x) for x in laya}, LayB={S(x) for x in layb},
+             Modes={S(x) for x in modes}, LayD={S(x) for x in layd}, ShapeMismatch=mismatch)
+    k.update(kw)
+    return k
+
+
+ELEM_INV = ["TypeOK", "CopiesDisjoint", "OperandsIntact", "Emit"]
+PALS_ARITH = "ident,signed,edge,zerodiv,nonfinite"
+
+
+def check_C06(c):
+    q = c.quick
+    cases = c.tlc("MC_elem", "elem-arith", elem_consts(q, ["Arith"]), ELEM_INV)
+    c.replay("elem-arith", cases, dtypes="numeric,string,bool", pals=PALS_ARITH, rotate=8 if q else 0,
+             extra=["-ops", "all", "-entries", "func,method"] + (["-palrotate", "3"] if q else []))
+    c.rep.rule = ("TLC enumerates the STRUCTURE of elementwise arithmetic: shapes of rank 0-4 x {tensor-tensor, tensor-scalar, scalar-tensor} "
+                  "x an independent layout per tensor operand {contiguous, lazily transposed (reversal and cyclic), contiguous window, inner "
+                  "slice, step slice, materialised} plus mismatched shapes, with the operator as the placeholder OP; the replayer substitutes "
+                  "every operator {add, sub, mul, div, mod, pow, min, max}, every numeric element type (and string/bool, which must be refused), "
+                  "five value palettes (distinct, signed with ties, overflow edge, zero divisors, non-finite) and both entry points (package "
+                  "function and method), and compares every coordinate with Go's own operator applied to the operands' elements in operand order")
+    c.rep.assumptions = ["the scalar meaning of an operator on an element type is Go's operator / math routine (named by the property)",
+                         "positions with an integer zero divisor, and integer Pow whose float64 result is not exactly representable, are not compared",
+                         "Mod and Pow on floats are compared within 8 ulp of math.Mod/Pow (math32 for float32)"]
+
+
+CHECKS = {"C01": check_C01, "C02": check_C02, "C03": check_C03, "C04": check_C04, "C13": check_C13, "C06": check_C06}
 
 HOOK_COMMITS = []
 NOT_YET = {}
@@ -187,6 +218,10 @@ LEVELS = {
             "technique": "TLC-enumerated reshape/permutation/slice/repeat/concat argument spaces (MC_shape, MC_slice, MC_assemble) replayed with the shape-only calculators executed next to the operations",
             "text": "bounded exhaustive model checking: the specification supplies the complete argument spaces and the Level-1 result; the replayer runs the operation and the calculator and compares both with each other and with the specification; the metadata invariant is evaluated on every tensor produced by every check",
             "note": "bounded (rank<=4, dims<=5)"},
+    "C06": {"ref": "DESIGN.md 4 C06",
+            "technique": "TLC-enumerated operand structures (MC_elem over Tensor.tla/Layouts.tla) replayed with every operator, element type and value palette",
+            "text": "bounded exhaustive model checking of the structure (which elements are combined, in which operand order, result shape, refusals) for every operand layout combination; each structure is executed on the real library for every operator x element type x palette and compared coordinate by coordinate with the term the specification assigns, evaluated with Go's operator",
+            "note": "bounded (rank<=4, dims<=3); scalar semantics delegated to Go's operators as the property states"},
     "C01": {"ref": "DESIGN.md 4 C01",
             "technique": "TLC-enumerated behaviours of the TLA+ tensor machine (MC_addr) replayed on the real library",
             "text": "bounded exhaustive model checking: TLC enumerates every shape/constructor/layout in bounds and the complete coordinate->cell table of each; every table entry is executed (At and SetAt) on the real tensor for every element type, with a full snapshot of all storage around each write",
